@@ -611,3 +611,114 @@ pub fn paren_cases(o: &mut Outcome, thorough: bool) {
         }
     }
 }
+
+// ---------------------------------------------------------------------------------------------------------------
+// §5 visibility, ABI, keyword tables
+
+/// (source text, model encoding)
+pub fn vis_universe() -> Vec<(String, String)> {
+    let mut v: Vec<(String, String)> = vec![("".into(), "i".into()), ("pub".into(), "p".into())];
+    let paths: [(&str, bool, &[&str]); 12] = [
+        ("crate", false, &["crate"]),
+        ("self", false, &["self"]),
+        ("super", false, &["super"]),
+        ("crate::a", false, &["crate", "a"]),
+        ("super::super", false, &["super", "super"]),
+        ("self::a", false, &["self", "a"]),
+        ("a", false, &["a"]),
+        ("a::b", false, &["a", "b"]),
+        ("::a", true, &["a"]),
+        ("::a::b", true, &["a", "b"]),
+        ("r#a", false, &["r#a"]),
+        ("crate::r#self_", false, &["crate", "r#self_"]),
+    ];
+    for (txt, global, segs) in paths {
+        let enc = format!("r:{}:{}", b(global), enc_strs(segs));
+        v.push((format!("pub(in {})", txt), enc.clone()));
+        v.push((format!("pub ( in  {} )", txt.replace("::", " :: ")), enc.clone()));
+        if segs.len() == 1 && matches!(txt, "crate" | "self" | "super") {
+            v.push((format!("pub({})", txt), enc.clone()));
+            v.push((format!("pub ( {} )", txt), enc));
+        }
+    }
+    v
+}
+
+pub const ABIS: [&str; 12] = ["C", "Rust", "system", "C-unwind", "", "c", " C", "C ", "cdecl", "rust-intrinsic", "a\"b", "a\\b"];
+
+pub fn vis_extern_cases(o: &mut Outcome) {
+    let c15 = mk_cfg(&[("edition", "2015")]);
+    for (src_vis, enc) in vis_universe() {
+        for item in ["fn f() {}", "struct S;", "mod m {}", "use a::b;"] {
+            let src = format!("{} {}\n", src_vis, item);
+            o.count("vis:inputs");
+            let Some(recs) = analyze(&src, &c15) else {
+                o.count("vis:does-not-parse");
+                continue;
+            };
+            let Some(r) = first(&recs, "vis") else { continue };
+            o.push("corr", "opt.vis", format!("opt.vis {}", enc), enc_str(r.get("out").unwrap_or("")), format!("{:?}", src), enc.starts_with("r:"));
+        }
+    }
+    // format_extern directly
+    let mut exts: Vec<(Option<Option<&str>>, String)> = vec![(None, "n".into()), (Some(None), "i".into())];
+    for a in ABIS {
+        exts.push((Some(Some(a)), format!("e:{}", enc_str(a))));
+    }
+    for (ext, enc) in &exts {
+        let Some((explicit, implicit)) = guard(|| ho_format_extern(*ext)) else { continue };
+        for (flag, real) in [(true, &explicit), (false, &implicit)] {
+            o.push("corr", "opt.extern", format!("opt.extern {} {}", enc, b(flag)), enc_str(real), format!("{:?} explicit_abi={}", ext, flag), true);
+            o.push("corr", "opt.extern.arms", format!("opt.extern.arms {} {}", enc, b(flag)), enc_str(real), format!("{:?} explicit_abi={}", ext, flag), true);
+            // the printed qualifier selects the same ABI (not for a text that needs escapes: probe OPTIN-ABI-ESCAPE)
+            let needs_escape = matches!(ext, Some(Some(a)) if a.contains('"') || a.contains('\\'));
+            if !needs_escape {
+                o.push("oracle", "opt.extern.read", format!("opt.extern.read {} {}", enc, enc_str(real)), "ok".into(), format!("{:?} explicit_abi={}", ext, flag), true);
+            }
+        }
+    }
+    // the same through the parser: fn items, bare fn types, foreign modules; escapes and raw strings in the ABI
+    let spellings: [(&str, &str); 9] = [
+        ("extern", "i"),
+        ("extern \"C\"", "C"),
+        ("extern \"\\x43\"", "C"),
+        ("extern r\"C\"", "C"),
+        ("extern r#\"C\"#", "C"),
+        ("extern \"Rust\"", "Rust"),
+        ("extern \"C-unwind\"", "C-unwind"),
+        ("extern \"\\u{43}-unwind\"", "C-unwind"),
+        ("extern \"system\"", "system"),
+    ];
+    for (sp, abi) in spellings {
+        let enc = if abi == "i" { "i".to_string() } else { format!("e:{}", enc_str(abi)) };
+        for (what, src) in [
+            ("fn", format!("{} fn f() {{}}\n", sp)),
+            ("fn", format!("pub unsafe {} fn f() {{}}\n", sp)),
+            ("mod", format!("{} {{}}\n", sp)),
+            ("mod", format!("unsafe {} {{ fn g(); }}\n", sp)),
+            ("barefn", format!("type T = {} fn(u8);\n", sp)),
+            ("barefn", format!("type T = for<'a> unsafe {} fn(&'a u8);\n", sp)),
+        ] {
+            o.count("extern:inputs");
+            let Some(recs) = analyze(&src, &c15) else {
+                o.count("extern:does-not-parse");
+                continue;
+            };
+            let Some(r) = recs.iter().find(|r| r.kind == "extern" && r.get("what") == Some(what)) else { continue };
+            for (flag, key) in [(true, "explicit"), (false, "implicit")] {
+                o.push("corr", "opt.extern", format!("opt.extern {} {}", enc, b(flag)), enc_str(r.get(key).unwrap_or("")), format!("{:?} {}", src, key), true);
+            }
+        }
+    }
+    // keyword tables: what the code returns for every variant vs the table read out of the source
+    let table = ho_keywords().iter().map(|(f, v, s)| format!("{}:{}:{}", f, v, enc_str(s))).collect::<Vec<_>>().join(";");
+    o.push("corr", "kw.table", "kw.table".into(), table, "keyword tables".into(), true);
+}
+
+fn ho_format_extern(ext: Option<Option<&str>>) -> (String, String) {
+    rustfmt_nightly::verif_hooks::optin::format_extern(ext)
+}
+
+fn ho_keywords() -> Vec<(&'static str, &'static str, String)> {
+    rustfmt_nightly::verif_hooks::optin::keywords()
+}
